@@ -10,11 +10,10 @@ Model: Model/C21.lean (actor/router.go as it is; Go map iteration order is an in
 Tie: differential (E1/E2) on the real ring and on the real router driven in-package; go2lean cannot
 reach the index expression (it is not a `return a[e]`), so `rrIndex` is a hand model.
 
-Outcome: the round-robin clause is FALSE of the current code, twice (C21_refuted):
- (a) `availableRoutees` rebuilds the slice from a Go map for every message, so there is no fixed order;
- (b) at the message that wraps the uint32 counter to 0 the index is (0-1) % len = -1: panic, message lost.
-The fan-out and consistent-hash clauses hold (fanout_exactly_once, ch_stable, ring_minimal_disruption),
-the latter under the stated hypothesis that vnode hashes are pairwise distinct.
+Outcome: the full statement holds (C21_holds).  History (fixed by the round-robin fix, see
+findings/C21.json): the counter used to be free-running (index -1 and a panic at the uint32 wrap), the
+slice used to be rebuilt from a Go map per message without sorting (no fixed order), and stopped routees
+were deleted from the map but still appended to the slice.
 -/
 import GoaktVerif.Model.C21
 import GoaktVerif.Spec.C21
@@ -106,20 +105,50 @@ theorem vnodesOf_remove (hv : Nat → Nat → Nat) (vn : Nat) (members : List Na
       obtain ⟨i, _, rfl⟩ := List.mem_map.mp hvm
       exact hne
 
+/-! ### router: what availableRoutees returns -/
+
+theorem running_filter (r : Router) (hall : ∀ e ∈ r.members, e.2 = true) :
+    ({ r with members := r.members.filter (·.2) } : Router) = r := by
+  have hf : r.members.filter (·.2) = r.members := List.filter_eq_self.mpr (fun e he => hall e he)
+  rw [hf]
+
+theorem running_of_mem (r : Router) (hall : ∀ e ∈ r.members, e.2 = true) (id : Nat) (h : id ∈ r.ids) :
+    r.running id = true := by
+  obtain ⟨e, he, rfl⟩ := List.mem_map.mp h
+  simp only [Router.running, List.any_eq_true]
+  exact ⟨e, he, by simp [hall e he]⟩
+
+/-- the slice does not depend on the map iteration order: it is the sorted list of the routees -/
+theorem available_sorted (r : Router) (order : List Nat) (hperm : order.Perm r.ids)
+    (hall : ∀ e ∈ r.members, e.2 = true) :
+    (available r order).1 = sortKeys r.ids := by
+  have hf : order.filter r.running = order :=
+    List.filter_eq_self.mpr (fun id hid => running_of_mem r hall id (hperm.mem_iff.mp hid))
+  simp only [available, hf]
+  apply List.Perm.eq_of_pairwise (le := (· ≤ ·)) (fun a b _ _ h1 h2 => Nat.le_antisymm h1 h2)
+    (sortKeys_sorted _) (sortKeys_sorted _)
+  exact (sortKeys_perm order).trans (hperm.trans (sortKeys_perm r.ids).symm)
+
 /-! ### router: consistent-hash strategy -/
 
 /-- equal keys (equal hashes) are routed to the same routee while ring and routee map are unchanged
     and the owner is running — whatever the map iteration order and the random draws are -/
 theorem ch_stable (r : Router) (ring : Ring) (o₁ o₂ : List Nat) (h rnd₁ rnd₂ id : Nat)
-    (hne₁ : o₁ ≠ []) (hne₂ : o₂ ≠ [])
+    (hne₁ : (available r o₁).1 ≠ []) (hne₂ : (available r o₂).1 ≠ [])
     (hall : ∀ e ∈ r.members, e.2 = true) (hown : ring.lookup h = some id) (hrun : r.running id = true) :
     (chRoute r ring o₁ (some h) rnd₁).1 = .delivered id
     ∧ (chRoute r ring o₂ (some h) rnd₂).1 = .delivered id
     ∧ (chRoute r ring o₁ (some h) rnd₁).2 = r := by
-  have hf : r.members.filter (·.2) = r.members := List.filter_eq_self.mpr (fun e he => hall e he)
-  have hr : ({ r with members := r.members.filter (·.2) } : Router) = r := by rw [hf]
-  have e₁ : o₁.isEmpty = false := by cases o₁ <;> simp_all
-  have e₂ : o₂.isEmpty = false := by cases o₂ <;> simp_all
+  have hr := running_filter r hall
+  have e₁ : (available r o₁).1.isEmpty = false := by
+    cases h1 : (available r o₁).1 with
+    | nil => exact absurd h1 hne₁
+    | cons _ _ => rfl
+  have e₂ : (available r o₂).1.isEmpty = false := by
+    cases h2 : (available r o₂).1 with
+    | nil => exact absurd h2 hne₂
+    | cons _ _ => rfl
+  simp only [available] at e₁ e₂
   simp [chRoute, available, hr, e₁, e₂, hown, hrun]
 
 /-! ### router: fan-out strategy -/
@@ -154,76 +183,90 @@ theorem fanout_exactly_once (r : Router) (order : List Nat) (hperm : order.Perm 
     (id : Nat) (hmem : id ∈ r.ids) (hrun : r.running id = true) :
     (fanoutRoute r order).1.count (.delivered id) = 1 := by
   simp only [fanoutRoute, available]
-  rw [count_map_delivered r id order hrun, hperm.count_eq]
+  rw [count_map_delivered r id _ hrun, (sortKeys_perm _).count_eq, List.count_filter hrun, hperm.count_eq]
   exact count_eq_one hnd hmem
 
-/-- and to nobody else: every outcome concerns a routee of the map -/
+/-- and to nobody else: every Tell goes to a running routee of the map -/
 theorem fanout_only_routees (r : Router) (order : List Nat) (hperm : order.Perm r.ids) (o : Outcome)
-    (ho : o ∈ (fanoutRoute r order).1) : ∃ id ∈ r.ids, o = .delivered id ∨ o = .deadRoutee id := by
+    (ho : o ∈ (fanoutRoute r order).1) : ∃ id ∈ r.ids, o = .delivered id := by
   simp only [fanoutRoute, available, List.mem_map] at ho
   obtain ⟨id, hid, rfl⟩ := ho
-  refine ⟨id, hperm.mem_iff.mp hid, ?_⟩
-  unfold tellTo; split <;> simp
+  have hid' : id ∈ order.filter r.running := (sortKeys_perm _).mem_iff.mp hid
+  obtain ⟨hin, hrun⟩ := List.mem_filter.mp hid'
+  exact ⟨id, hperm.mem_iff.mp hin, by simp [tellTo, hrun]⟩
 
 /-! ### router: round-robin strategy -/
 
-theorem rrIndex_succ (n len : Nat) : rrIndex (n + 1) len = ((n % len : Nat) : Int) := by
-  unfold rrIndex
-  have : ((n + 1 : Nat) : Int) - 1 = (n : Int) := by omega
-  rw [this]
-  exact (Int.ofNat_tmod n len).symm
+/-- a well-formed router state: at least one routee (and fewer than 2^32), distinct routees, all
+    running, uint32 cursor -/
+def Healthy (r : Router) : Prop :=
+  r.members ≠ [] ∧ r.ids.Nodup ∧ (∀ e ∈ r.members, e.2 = true) ∧ r.next < 2 ^ 32 ∧ r.members.length < 2 ^ 32
 
-/-- the wrap: counter value 0 gives index -1 for every pool of at least two routees -/
-theorem rrIndex_wrap (len : Nat) (h : 2 ≤ len) : rrIndex 0 len = -1 := by
-  unfold rrIndex
-  show Int.tmod (Int.negSucc 0) (Int.ofNat len) = -1
-  simp only [Int.tmod, Nat.succ_eq_add_one, Nat.zero_add, Nat.mod_eq_of_lt h]
-  rfl
-
-/-- PARTIAL round-robin law: if the slice comes out in the same order `σ` for every message, every
-    routee is running, and the counter does not wrap during the run, message j goes to
-    σ[(next + j) mod n]: cyclic, nothing dropped.  (What the guards exclude is exactly C21_refuted.) -/
-theorem rr_fixed_order (σ : List Nat) (r : Router) (k : Nat) (hne : σ ≠ [])
-    (hall : ∀ e ∈ r.members, e.2 = true) (hrun : ∀ id ∈ σ, r.running id = true)
-    (hnowrap : r.next + k < 2 ^ 32) :
-    rrRun r (List.replicate k σ)
-      = (List.range k).map (fun j => Outcome.delivered (σ.getD ((r.next + j) % σ.length) 0)) := by
-  induction k generalizing r with
-  | zero => rfl
-  | succ k ih =>
-    have hf : r.members.filter (·.2) = r.members := List.filter_eq_self.mpr (fun e he => hall e he)
-    have hr : ({ r with members := r.members.filter (·.2) } : Router) = r := by rw [hf]
-    have e₁ : σ.isEmpty = false := by cases σ <;> simp_all
-    have hlen : 0 < σ.length := List.length_pos_iff.mpr hne
-    have hn : (r.next + 1) % 2 ^ 32 = r.next + 1 := Nat.mod_eq_of_lt (by omega)
-    have hlt : r.next % σ.length < σ.length := Nat.mod_lt _ hlen
-    have hstep : rrRoute r σ = (.delivered (σ.getD (r.next % σ.length) 0), { r with next := r.next + 1 }) := by
-      simp only [rrRoute, available, hr, e₁, hn, rrIndex_succ]
-      have hnn : ¬ (((r.next % σ.length : Nat) : Int) < 0) := by omega
-      simp only [Bool.false_eq_true, if_false, hnn, Int.toNat_natCast]
-      rw [List.getElem?_eq_getElem hlt]
-      simp only [tellTo, hrun _ (List.getElem_mem hlt), if_true, List.getD_eq_getElem?_getD,
-        List.getElem?_eq_getElem hlt, Option.getD_some]
-    have ih' := ih { r with next := r.next + 1 } hall hrun (by simp only; omega)
-    simp only [List.replicate_succ, rrRun, hstep, ih', List.range_succ_eq_map, List.map_cons, List.map_map]
-    congr 1
-    · apply List.map_congr_left
-      intro j _
-      simp only [Function.comp, Nat.succ_eq_add_one]
-      congr 3
-      omega
+/-- the round-robin law, for ANY cursor value (so after any number of earlier messages, any pool
+    change) and ANY map iteration orders: message j goes to σ[(next + j) mod n] where σ is the sorted
+    routee list — cyclic, nothing dropped, no wrap-around to worry about. -/
+theorem rr_holds (r : Router) (orders : List (List Nat)) (hh : Healthy r)
+    (hperm : ∀ o ∈ orders, o.Perm r.ids) :
+    rrRun r orders = (List.range orders.length).map
+      (fun j => Outcome.delivered ((sortKeys r.ids).getD ((r.next + j) % (sortKeys r.ids).length) 0)) := by
+  induction orders generalizing r with
+  | nil => rfl
+  | cons o os ih =>
+    obtain ⟨hne, hnd, hall, hlt, hsz⟩ := hh
+    have hav := available_sorted r o (hperm o List.mem_cons_self) hall
+    have hr := running_filter r hall
+    have hlen : 0 < (sortKeys r.ids).length := by
+      rw [(sortKeys_perm r.ids).length_eq]
+      cases hm : r.members with
+      | nil => exact absurd hm hne
+      | cons _ _ => simp [Router.ids, hm]
+    have e₁ : (sortKeys r.ids).isEmpty = false := by
+      cases hs : sortKeys r.ids with
+      | nil => rw [hs] at hlen; exact absurd hlen (by simp)
+      | cons _ _ => rfl
+    have hidx : r.next % 2 ^ 32 % (sortKeys r.ids).length < (sortKeys r.ids).length := Nat.mod_lt _ hlen
+    have hn : r.next % 2 ^ 32 = r.next := Nat.mod_eq_of_lt hlt
+    have hmem : (sortKeys r.ids)[r.next % (sortKeys r.ids).length]'(by rw [← hn]; exact hidx) ∈ r.ids :=
+      (sortKeys_perm r.ids).mem_iff.mp (List.getElem_mem _)
+    have hstep : rrRoute r o = (.delivered ((sortKeys r.ids).getD (r.next % (sortKeys r.ids).length) 0),
+        { r with next := (r.next % (sortKeys r.ids).length + 1) % (sortKeys r.ids).length }) := by
+      simp only [available] at hav
+      simp only [rrRoute, available, hav, hr, e₁, hn]
+      have hi : r.next % (sortKeys r.ids).length < (sortKeys r.ids).length := by rw [← hn]; exact hidx
+      rw [List.getElem?_eq_getElem hi]
+      simp only [Bool.false_eq_true, if_false, tellTo, running_of_mem r hall _ hmem, if_true,
+        List.getD_eq_getElem?_getD, List.getElem?_eq_getElem hi, Option.getD_some]
+    let r' : Router := { r with next := (r.next % (sortKeys r.ids).length + 1) % (sortKeys r.ids).length }
+    have hh' : Healthy r' := ⟨hne, hnd, hall, by
+      have h1 : (r.next % (sortKeys r.ids).length + 1) % (sortKeys r.ids).length < (sortKeys r.ids).length :=
+        Nat.mod_lt _ hlen
+      have h2 : (sortKeys r.ids).length = r.members.length := by
+        rw [(sortKeys_perm r.ids).length_eq]; simp [Router.ids]
+      show (r.next % (sortKeys r.ids).length + 1) % (sortKeys r.ids).length < 2 ^ 32
+      omega, hsz⟩
+    have ih' := ih r' hh' (fun o' ho' => hperm o' (List.mem_cons_of_mem _ ho'))
+    simp only [rrRun, hstep, List.length_cons, List.range_succ_eq_map, List.map_cons, List.map_map]
+    refine List.cons_eq_cons.mpr ⟨by simp, ?_⟩
+    rw [show ({ r with next := (r.next % (sortKeys r.ids).length + 1) % (sortKeys r.ids).length } : Router) = r' from rfl, ih']
+    apply List.map_congr_left
+    intro j _
+    simp only [Function.comp, Nat.succ_eq_add_one]
+    have e : ((r.next % (sortKeys r.ids).length + 1) % (sortKeys r.ids).length + j) % (sortKeys r.ids).length
+        = (r.next + (j + 1)) % (sortKeys r.ids).length := by
+      rw [Nat.mod_add_mod, Nat.add_assoc, Nat.mod_add_mod]
+      congr 1; omega
+    show Outcome.delivered ((sortKeys r'.ids).getD ((r'.next + j) % (sortKeys r'.ids).length) 0) = _
+    show Outcome.delivered ((sortKeys r.ids).getD (((r.next % (sortKeys r.ids).length + 1) % (sortKeys r.ids).length + j) % (sortKeys r.ids).length) 0) = _
+    rw [e]
 
 /-! ### the full statement -/
-
-/-- a well-formed router state: at least one routee, distinct routees, all running -/
-def Healthy (r : Router) : Prop := r.members ≠ [] ∧ r.ids.Nodup ∧ (∀ e ∈ r.members, e.2 = true) ∧ r.next < 2 ^ 32
 
 /-- the receivers follow one fixed cyclic order σ of the routees, none lost -/
 def CyclicIn (σ : List Nat) (outs : List Outcome) : Prop :=
   ∃ off, ∀ j (hj : j < outs.length), outs[j] = .delivered (σ.getD ((off + j) % σ.length) 0)
 
 def C21_full : Prop :=
-  -- round-robin: for every healthy router (any counter value, so any number of earlier messages)
+  -- round-robin: for every healthy router (any cursor value, so any number of earlier messages)
   -- and every sequence of map iteration orders, the outcomes are cyclic in one fixed order
   (∀ (r : Router) (orders : List (List Nat)), Healthy r → (∀ o ∈ orders, o.Perm r.ids) →
       ∃ σ, σ.Perm r.ids ∧ CyclicIn σ (rrRun r orders))
@@ -231,71 +274,29 @@ def C21_full : Prop :=
   ∧ (∀ (r : Router) (order : List Nat) (id : Nat), order.Perm r.ids → r.ids.Nodup → id ∈ r.ids →
       r.running id = true → (fanoutRoute r order).1.count (.delivered id) = 1)
   -- consistent hash: equal keys, same routee, while nothing changes
-  ∧ (∀ (r : Router) (ring : Ring) (o₁ o₂ : List Nat) (h rnd₁ rnd₂ id : Nat), o₁ ≠ [] → o₂ ≠ [] →
+  ∧ (∀ (r : Router) (ring : Ring) (o₁ o₂ : List Nat) (h rnd₁ rnd₂ id : Nat),
+      (available r o₁).1 ≠ [] → (available r o₂).1 ≠ [] →
       (∀ e ∈ r.members, e.2 = true) → ring.lookup h = some id → r.running id = true →
       (chRoute r ring o₁ (some h) rnd₁).1 = .delivered id ∧ (chRoute r ring o₂ (some h) rnd₂).1 = .delivered id)
   -- consistent hash: removing a routee only moves its keys (distinct vnode hashes)
   ∧ (∀ (V : List VNode) (r h m m' : Nat), (V.map (·.1)).Nodup → (Ring.set V).lookup h = some m →
       (Ring.set (V.filter (fun v => v.2 != r))).lookup h = some m' → m ≠ m' → m = r)
 
-/-- witness (a): two routees, the map yields [0,1] for the first message and [1,0] for the second:
-    both messages go to routee 0 -/
-def witnessOrder : Router × List (List Nat) := (⟨[(0, true), (1, true)], 0⟩, [[0, 1], [1, 0]])
+theorem C21_holds : C21_full := by
+  refine ⟨?_, fun r order id a b c d => fanout_exactly_once r order a b id c d,
+    fun r ring o₁ o₂ h rnd₁ rnd₂ id a b c d e =>
+      ⟨(ch_stable r ring o₁ o₂ h rnd₁ rnd₂ id a b c d e).1, (ch_stable r ring o₁ o₂ h rnd₁ rnd₂ id a b c d e).2.1⟩,
+    fun V r h m m' a b c d => ring_minimal_disruption V a r h m m' b c d⟩
+  intro r orders hh hperm
+  refine ⟨sortKeys r.ids, sortKeys_perm r.ids, r.next, ?_⟩
+  intro j hj
+  have := rr_holds r orders hh hperm
+  simp only [this, List.getElem_map, List.getElem_range]
 
-/-- witness (b): even with a fixed order, counter at 2^32-1: the next message panics and is lost -/
-def witnessWrap : Router × List (List Nat) := (⟨[(0, true), (1, true)], 4294967295⟩, [[0, 1]])
-
-theorem witnessOrder_run : rrRun witnessOrder.1 witnessOrder.2 = [.delivered 0, .delivered 0] := by decide
-theorem witnessWrap_run : rrRun witnessWrap.1 witnessWrap.2 = [.panic] := by decide
-
-theorem C21_refuted : ¬ C21_full := by
-  intro h
-  obtain ⟨σ, _, off, hc⟩ := h.1 witnessWrap.1 witnessWrap.2
-    ⟨by decide, by decide, by decide, by decide⟩ (by decide)
-  have := hc 0 (by rw [witnessWrap_run]; decide)
-  simp only [witnessWrap_run] at this
-  cases this
-
-/-- the same refutation through the other defect (kept as a separate obligation) -/
-theorem C21_refuted_order :
-    ¬ ∃ σ, σ.Perm witnessOrder.1.ids ∧ CyclicIn σ (rrRun witnessOrder.1 witnessOrder.2) := by
-  rintro ⟨σ, hp, off, hc⟩
-  have h0 := hc 0 (by rw [witnessOrder_run]; decide)
-  have h1 := hc 1 (by rw [witnessOrder_run]; decide)
-  simp only [witnessOrder_run, List.getElem_cons_zero, List.getElem_cons_succ, Outcome.delivered.injEq] at h0 h1
-  have hl : σ.length = 2 := hp.length_eq
-  have hnd : σ.Nodup := hp.nodup_iff.mpr (by decide)
-  match σ, hl with
-  | [a, b], _ =>
-    simp only [List.length_cons, List.length_nil] at h0 h1
-    have hab : a ≠ b := by
-      intro e; subst e; simp at hnd
-    rcases Nat.mod_two_eq_zero_or_one off with e | e
-    · have e1 : (off + 1) % 2 = 1 := by omega
-      simp [e, e1] at h0 h1
-      exact hab (h0.symm.trans h1)
-    · have e1 : (off + 1) % 2 = 0 := by omega
-      simp [e, e1] at h0 h1
-      exact hab (h1.symm.trans h0)
-
-/-- everything that is true: the round-robin law under its guards, the other three clauses in full -/
-theorem C21_partial :
-    (∀ (σ : List Nat) (r : Router) (k : Nat), σ ≠ [] → (∀ e ∈ r.members, e.2 = true) →
-      (∀ id ∈ σ, r.running id = true) → r.next + k < 2 ^ 32 →
-      rrRun r (List.replicate k σ)
-        = (List.range k).map (fun j => Outcome.delivered (σ.getD ((r.next + j) % σ.length) 0)))
-    ∧ (∀ (r : Router) (order : List Nat) (id : Nat), order.Perm r.ids → r.ids.Nodup → id ∈ r.ids →
-        r.running id = true → (fanoutRoute r order).1.count (.delivered id) = 1)
-    ∧ (∀ (r : Router) (ring : Ring) (o₁ o₂ : List Nat) (h rnd₁ rnd₂ id : Nat), o₁ ≠ [] → o₂ ≠ [] →
-        (∀ e ∈ r.members, e.2 = true) → ring.lookup h = some id → r.running id = true →
-        (chRoute r ring o₁ (some h) rnd₁).1 = .delivered id ∧ (chRoute r ring o₂ (some h) rnd₂).1 = .delivered id)
-    ∧ (∀ (V : List VNode) (r h m m' : Nat), (V.map (·.1)).Nodup → (Ring.set V).lookup h = some m →
-        (Ring.set (V.filter (fun v => v.2 != r))).lookup h = some m' → m ≠ m' → m = r) :=
-  ⟨fun σ r k a b c d => rr_fixed_order σ r k a b c d,
-   fun r order id a b c d => fanout_exactly_once r order a b id c d,
-   fun r ring o₁ o₂ h rnd₁ rnd₂ id a b c d e =>
-     ⟨(ch_stable r ring o₁ o₂ h rnd₁ rnd₂ id a b c d e).1, (ch_stable r ring o₁ o₂ h rnd₁ rnd₂ id a b c d e).2.1⟩,
-   fun V r h m m' a b c d => ring_minimal_disruption V a r h m m' b c d⟩
+/-- the former witnesses now behave: varying iteration orders, and a cursor value of 2^32-1 -/
+example : rrRun ⟨[(0, true), (1, true)], 0⟩ [[0, 1], [1, 0]] = [.delivered 0, .delivered 1] := by decide
+example : rrRun ⟨[(0, true), (1, true)], 4294967295⟩ [[0, 1], [1, 0], [0, 1]]
+    = [.delivered 1, .delivered 0, .delivered 1] := by decide
 
 /-! ### non-vacuity -/
 def exV : List VNode := [(10, 0), (50, 1), (90, 2), (30, 1), (70, 0)]
@@ -305,9 +306,9 @@ example : (Ring.set exV).lookup 95 = some 0 := by decide          -- wrap to 10
 example : (Ring.set (exV.filter (fun v => v.2 != 1))).lookup 40 = some 0 := by decide   -- moved: was owned by 1
 example : (Ring.set (exV.filter (fun v => v.2 != 1))).lookup 80 = some 2 := by decide   -- not moved
 example : rrRun ⟨[(0, true), (1, true), (2, true)], 7⟩ (List.replicate 4 [2, 0, 1])
-    = [.delivered 0, .delivered 1, .delivered 2, .delivered 0] := by decide
-example : Healthy witnessWrap.1 := ⟨by decide, by decide, by decide, by decide⟩
+    = [.delivered 1, .delivered 2, .delivered 0, .delivered 1] := by decide
+example : Healthy ⟨[(0, true), (1, true)], 4294967295⟩ := ⟨by decide, by decide, by decide, by decide, by decide⟩
 example : (fanoutRoute ⟨[(0, true), (1, false), (2, true)], 0⟩ [2, 1, 0]).1
-    = [.delivered 2, .deadRoutee 1, .delivered 0] := by decide
+    = [.delivered 0, .delivered 2] := by decide
 
 end GoaktVerif.C21
